@@ -21,6 +21,10 @@ def _is_async(by_parent, f):
 
 
 def _layer(path):
+    if path.startswith("<") and path.lstrip("<").split("::")[0] not in ("client", "codec", "core", "io"):
+        m = re.search(r" as ([a-z_]+)::", path)
+        if m and m.group(1) in ("client", "codec", "core", "io"):
+            return m.group(1)
     return path.lstrip("<").split("::")[0]
 
 
@@ -46,6 +50,12 @@ def _field_role_session(ty, adts):
     return None
 
 
+def _is_limit_enum(a):
+    """`enum PacketSizeLimit { Unlimited, AtMost(u32) }`: an optional u32 under a name of its own."""
+    return a is not None and a["kind"] == "enum" and _layer(a["path"]) == "client" and len(a["variants"]) == 2 \
+        and sorted(len(v["fields"]) for v in a["variants"]) == [0, 1] and [f["ty"] for v in a["variants"] for f in v["fields"]][0] == "u32"
+
+
 def detect_structs(d):
     """{"adts": {actual_path: canonical_path}, "fields": {(canonical_adt, canonical_field): actual_field}}"""
     adts = {a["path"]: a for a in d["adts"]}
@@ -69,7 +79,7 @@ def detect_structs(d):
                     out["fields"][(CONNECTION, "disconnection_timestamp")] = x["name"]
                 elif t == "u32":
                     out["fields"][(CONNECTION, "session_expiry_interval")] = x["name"]
-                elif t == "std::option::Option<u32>":
+                elif t == "std::option::Option<u32>" or _is_limit_enum(adts.get(t)):
                     out["fields"][(CONNECTION, "remote_max_packet_size")] = x["name"]
         else:
             # payload structs of the messages handed to the context
@@ -211,6 +221,95 @@ def _quota_fields(d, fns):
     return None
 
 
+INT_TYS = ("u8", "u16", "u32", "u64", "usize")
+
+
+def erase_counter_newtypes(d):
+    """Normal form: a counter of Connection wrapped in a private newtype of its own (`send_quota: SendQuota` with
+    `struct SendQuota(u16)` and methods `is_exhausted` / `dec` / `inc(limit)`) is, in the fact base, the plain integer
+    field the rules speak about: `conn.F.0` -> `conn.F`; inside the methods of the newtype `self.0` is that same field (a
+    reference to the newtype stands for a reference to the Connection it is part of); the literal `SendQuota(x)` is x.
+    Returns the list of erased newtypes."""
+    adts = {a["path"]: a for a in d["adts"]}
+    conn = adts.get(CONNECTION)
+    if conn is None:
+        return []
+    cf = conn["variants"][0]["fields"]
+    done = []
+    for fi, fld in enumerate(cf):
+        T = adts.get(fld["ty"])
+        if not (T and T["kind"] == "struct" and _layer(T["path"]) == "client" and len(T["variants"][0]["fields"]) == 1
+                and T["variants"][0]["fields"][0]["ty"] in INT_TYS):
+            continue
+        # only one field of Connection may have this type (otherwise a &T does not say which field it is)
+        if sum(1 for x in cf if x["ty"] == T["path"]) != 1:
+            continue
+        inner = T["variants"][0]["fields"][0]["ty"]
+        tp = T["path"]
+
+        def proj():
+            return {"f": fi, "n": fld["name"], "adt": CONNECTION, "ty": inner}
+
+        def fix_place(pl, whole_ok=False):
+            out = []
+            pr = pl["p"]
+            j = 0
+            while j < len(pr):
+                p = pr[j]
+                if isinstance(p, dict) and "f" in p and p.get("adt") == CONNECTION and p.get("n") == fld["name"]:
+                    nxt = pr[j + 1] if j + 1 < len(pr) else None
+                    if isinstance(nxt, dict) and "f" in nxt and nxt.get("adt") == tp:
+                        out.append(proj())
+                        j += 2
+                        continue
+                    if whole_ok and j == len(pr) - 1:
+                        out.append(proj())
+                        j += 1
+                        continue
+                    j += 1          # a reference to the newtype stands for the Connection it is part of
+                    continue
+                if isinstance(p, dict) and "f" in p and p.get("adt") == tp:
+                    out.append(proj())
+                    j += 1
+                    continue
+                out.append(p)
+                j += 1
+            pl["p"] = out
+
+        def walk(x):
+            if isinstance(x, dict):
+                if "l" in x and "p" in x and isinstance(x["p"], list) and isinstance(x["l"], int):
+                    fix_place(x)
+                    return
+                for v in x.values():
+                    walk(v)
+            elif isinstance(x, list):
+                for v in x:
+                    walk(v)
+        for f in d["fns"]:
+            for b in f.get("blocks") or []:
+                for st in b["stmts"]:
+                    if st["k"] == "assign" and st["rv"]["k"] == "agg" and st["rv"].get("adt") == tp and len(st["rv"]["ops"]) == 1:
+                        st["rv"] = {"k": "use", "op": st["rv"]["ops"][0]}
+                        walk(st["rv"])
+                        fix_place(st["lhs"], whole_ok=True)
+                    elif st["k"] == "assign" and st["rv"]["k"] == "use" and st["rv"]["op"].get("k") in ("move", "copy") \
+                            and st["lhs"]["p"] and isinstance(st["lhs"]["p"][-1], dict) and st["lhs"]["p"][-1].get("adt") == CONNECTION and st["lhs"]["p"][-1].get("n") == fld["name"]:
+                        # `connection.F = tmp` with tmp the (erased) literal
+                        fix_place(st["lhs"], whole_ok=True)
+                        walk(st["rv"])
+                    else:
+                        walk(st)
+                walk(b.get("term"))
+            walk(f.get("debug"))
+            for l in f.get("locals") or []:
+                if l.get("ty") == tp:
+                    l["ty"] = inner
+        fld["ty"] = inner
+        done.append({"newtype": tp, "field": fld["name"], "inner": inner})
+    return done
+
+
 def flatten_quota_struct(d):
     """Normal form: the two u16 flow-control counters of Connection bundled in a private struct of their own
     (`send_quota: SendQuota { available, maximum }`, with methods that the handlers call) are rewritten, in the fact
@@ -319,7 +418,9 @@ def _codec_tx_helpers(d, out):
             if re.match(r"codec::\w+::\w+Tx$", adt):
                 enc_of[adt] = f
     for adt, enc in enc_of.items():
-        meths = [f for f in d["fns"] if f["kind"] == "fn" and not f.get("impl_trait") and _strip_g(f.get("impl_self") or "") == adt]
+        # inherent methods, and methods the type implements for a private trait of the codec (`impl Framed for PublishTx`)
+        meths = [f for f in d["fns"] if f["kind"] == "fn" and _strip_g(f.get("impl_self") or "") == adt
+                 and (not f.get("impl_trait") or (_strip_g(f["impl_trait"]).startswith("codec::")))]
         if not meths:
             continue
         mp = {m["path"]: m for m in meths}
@@ -328,8 +429,10 @@ def _codec_tx_helpers(d, out):
             cs = []
             for b in f["blocks"]:
                 t = b["term"]
-                if t["k"] == "call" and t.get("callee") and t["callee"]["def"] in mp:
-                    cs.append(t["callee"]["def"])
+                if t["k"] == "call" and t.get("callee"):
+                    tgt_ = t["callee"].get("resolved") if t["callee"].get("resolved") in mp else t["callee"]["def"]
+                    if tgt_ in mp:
+                        cs.append(tgt_)
             return cs
         # the length-prefix helpers take `&self` only; plumbing with further parameters (`remaining_len_with(&self, plen)`)
         # is not a role of its own
@@ -349,7 +452,7 @@ def _codec_tx_helpers(d, out):
                     if c in {x["path"] for x in vs} and c != root["path"] and c not in order:
                         order.append(c)
                 for c, nm in zip(order, ("property_len", "will_property_len")):
-                    out[c] = prefix + nm
+                    out[c] = c[:c.rfind("::") + 2] + nm
         # flags byte: a u8 helper whose result encode() hands straight to the encoder
         u8s = [m for m in meths if m.get("sig_out") == "u8"]
         emitted = []
@@ -404,6 +507,73 @@ def canonicalise_structs(text, st):
 
 RXSTREAM = "io::packet_stream::RxPacketStream"
 STATE = "io::packet_stream::PacketStreamState"
+
+
+def _flatten_bundle(d, owner, fld, T, role):
+    """Rewrite, in the fact base, a private struct T that is the field `fld` of `owner` into plain fields of owner:
+    `x.fld.f` -> `x.role[f]`; inside the methods of T `self.f` is that same field of owner (a reference to the bundle
+    stands for a reference to the owner it is part of). role: {T field name: (owner field name, type)}."""
+    names = [g["name"] for g in T["variants"][0]["fields"]]
+
+    def fix_place(pl):
+        out = []
+        pr = pl["p"]
+        j = 0
+        while j < len(pr):
+            p = pr[j]
+            if isinstance(p, dict) and "f" in p and p.get("adt") == owner["path"] and p.get("n") == fld["name"]:
+                nxt = pr[j + 1] if j + 1 < len(pr) else None
+                if isinstance(nxt, dict) and "f" in nxt and nxt.get("adt") == T["path"]:
+                    out.append({"f": 100 + names.index(nxt["n"]), "n": role[nxt["n"]][0], "adt": owner["path"], "ty": role[nxt["n"]][1]})
+                    j += 2
+                    continue
+                j += 1
+                continue
+            if isinstance(p, dict) and "f" in p and p.get("adt") == T["path"]:
+                out.append({"f": 100 + names.index(p["n"]), "n": role[p["n"]][0], "adt": owner["path"], "ty": role[p["n"]][1]})
+                j += 1
+                continue
+            out.append(p)
+            j += 1
+        pl["p"] = out
+
+    def walk(x):
+        if isinstance(x, dict):
+            if "l" in x and "p" in x and isinstance(x["p"], list) and isinstance(x["l"], int):
+                fix_place(x)
+                return
+            for v in x.values():
+                walk(v)
+        elif isinstance(x, list):
+            for v in x:
+                walk(v)
+    for f in d["fns"]:
+        walk(f.get("blocks"))
+        walk(f.get("debug"))
+    cf = owner["variants"][0]["fields"]
+    owner["variants"][0]["fields"] = [x for x in cf if x is not fld] + [{"name": role[n][0], "ty": role[n][1], "pub": False} for n in names]
+
+
+def flatten_stream_buffer(d):
+    """Normal form: the receive buffer and its fill counter bundled in a private struct of the module
+    (`buf: RxBuffer { bytes: BytesMut, filled: usize }` with `advance` / `consume` / `take_front` ..) are the two plain
+    fields of RxPacketStream the rules speak about."""
+    adts = {a["path"]: a for a in d["adts"]}
+    rs = adts.get(RXSTREAM)
+    if rs is None:
+        return None
+    cf = rs["variants"][0]["fields"]
+    if any(x["ty"] == "bytes::BytesMut" for x in cf):
+        return None
+    for x in cf:
+        T = adts.get(x["ty"])
+        if T and T["kind"] == "struct" and T["path"].startswith("io::packet_stream::") and sorted(g["ty"] for g in T["variants"][0]["fields"]) == ["bytes::BytesMut", "usize"]:
+            role = {}
+            for g in T["variants"][0]["fields"]:
+                role[g["name"]] = ("buf", "bytes::BytesMut") if g["ty"] == "bytes::BytesMut" else ("size", "usize")
+            _flatten_bundle(d, rs, x, T, role)
+            return {"bundle": T["path"], "field": x["name"], "roles": {k: v[0] for k, v in role.items()}}
+    return None
 
 
 def detect_stream(d):
@@ -515,6 +685,83 @@ def canonicalise_stream(text, sd):
     return text, renamed
 
 
+def optionlike_enums(d):
+    """Normal form: a private two-variant enum of the client layer that is an Option under a name of its own
+    (`enum Link { Fresh, Lost(SystemTime) }`, `enum PacketSizeLimit { Unlimited, AtMost(u32) }`: first a unit variant,
+    then a variant with one unnamed field) is, in the fact base, the `Option<T>` it is isomorphic to: literals, matches,
+    places and types are renamed (`Fresh` -> `None`, `Lost(t)` -> `Some(t)`; discriminants are 0 and 1 in both). The
+    methods of the enum keep their paths (they are inlined where they are called). Returns the list of rewritten enums."""
+    done = []
+    for a in d["adts"]:
+        if a["kind"] != "enum" or _layer(a["path"]) != "client" or len(a["variants"]) != 2:
+            continue
+        v0, v1 = a["variants"]
+        if v0["fields"] or len(v1["fields"]) != 1 or not re.fullmatch(r"\d+", v1["fields"][0]["name"]) or v0.get("discr") != 0 or v1.get("discr") != 1:
+            continue
+        done.append((a["path"], v0["name"], v1["name"], v1["fields"][0]["ty"]))
+    if not done:
+        return []
+    info = {p: (n0, n1, t) for p, n0, n1, t in done}
+    pats = [(re.compile(r"(?<![\w:])" + re.escape(p) + r"(?![\w:])"), "std::option::Option<%s>" % t) for p, n0, n1, t in done]
+
+    def fix_ty(t):
+        if isinstance(t, str):
+            for pat, rep in pats:
+                t = pat.sub(rep, t)
+        return t
+
+    def fix_place(pl):
+        pr = pl["p"]
+        for j, p_ in enumerate(pr):
+            if isinstance(p_, dict) and "f" in p_:
+                if p_.get("adt") in info:
+                    prev = pr[j - 1] if j else None
+                    if isinstance(prev, dict) and "dc" in prev:
+                        n0, n1, _ = info[p_["adt"]]
+                        prev["dc"] = "Some" if prev["dc"] == n1 else ("None" if prev["dc"] == n0 else prev["dc"])
+                    p_["adt"] = "std::option::Option"
+                if "ty" in p_:
+                    p_["ty"] = fix_ty(p_["ty"])
+
+    def walk(x):
+        if isinstance(x, dict):
+            if "l" in x and "p" in x and isinstance(x["p"], list) and isinstance(x["l"], int):
+                fix_place(x)
+                return
+            if x.get("k") == "agg" and x.get("adt") in info:
+                n0, n1, t = info[x["adt"]]
+                x["adt"] = "std::option::Option"
+                x["variant"] = "Some" if x.get("variant") == n1 else "None"
+                x["args"] = [t]
+            elif x.get("k") == "discr" and x.get("adt") in info:
+                x["adt"] = "std::option::Option"
+            for k_ in ("ty", "self_ty"):
+                if isinstance(x.get(k_), str):
+                    x[k_] = fix_ty(x[k_])
+            if isinstance(x.get("args"), list):
+                x["args"] = [fix_ty(y) for y in x["args"]]
+            for v in x.values():
+                walk(v)
+        elif isinstance(x, list):
+            for v in x:
+                walk(v)
+    for f in d["fns"]:
+        walk(f.get("blocks"))
+        walk(f.get("debug"))
+        for l in f.get("locals") or []:
+            l["ty"] = fix_ty(l.get("ty"))
+        if isinstance(f.get("sig_in"), list):
+            f["sig_in"] = [fix_ty(t) for t in f["sig_in"]]
+        for k_ in ("sig_out", "ret_ty"):
+            if isinstance(f.get(k_), str):
+                f[k_] = fix_ty(f[k_])
+    for a in d["adts"]:
+        for v in a["variants"]:
+            for x in v["fields"]:
+                x["ty"] = fix_ty(x["ty"])
+    return [p for p, _, _, _ in done]
+
+
 def split_struct_variants(d):
     """Normal form for enums of the client layer: a struct-like variant `E::V { a, b, c }` is rewritten as the tuple
     variant `E::V(V)` holding a struct `V { a, b, c }` (isomorphic: places `(x as V).b` become `((x as V).0).b`, the
@@ -594,7 +841,8 @@ def load_canonical(path):
             text = fh.read()
     # facts are serialised without spaces after separators in the driver; normalise for the textual rewrites
     d = json.loads(text)
-    if split_struct_variants(d):
+    oe = optionlike_enums(d)
+    if split_struct_variants(d) or oe:
         text = json.dumps(d, separators=(",", ":"))
     st = detect_structs(d)
     text2, renamed = canonicalise_structs(text, st)
@@ -608,7 +856,10 @@ def load_canonical(path):
                             if x["name"] == actual:
                                 x["name"] = k
         text2 = None
+    fsb = flatten_stream_buffer(d)
     sd = detect_stream(d)
+    if fsb:
+        renamed.append(["bundle", fsb["bundle"], fsb["roles"]])
     if sd:
         t_s, rn_s = canonicalise_stream(json.dumps(d, separators=(",", ":")), sd)
         if rn_s:
@@ -620,7 +871,12 @@ def load_canonical(path):
                         for k, v in sd["fields"].items():
                             if x["name"] == v:
                                 x["name"] = k
+    en = erase_counter_newtypes(d)
     fq = flatten_quota_struct(d)
+    for e_ in en:
+        renamed.append(["newtype", e_["newtype"], e_["field"]])
+    for e_ in oe:
+        renamed.append(["option-like enum", e_, "std::option::Option"])
     if fq:
         renamed.append(["bundle", fq["bundle"], fq["roles"]])
     fns, prefix = detect_fns(d)
